@@ -48,13 +48,17 @@ type Ctx struct {
 	h       uint64 // history hash: choices + observations (state identity)
 	ho      uint64 // observation-only hash (outcome identity)
 	Verbose bool
-	log     []string
-	fail    *Failure
-	sc      *scenarioRun
-	nontriv bool
-	devs    int
-	steps   int
-	pruned  bool
+	// Strict: a prefix that does not fit is a hard error (replay of a recorded execution);
+	// Diverged: it happened while exploring and the execution went on with an in-range choice
+	Strict   bool
+	Diverged bool
+	log      []string
+	fail     *Failure
+	sc       *scenarioRun
+	nontriv  bool
+	devs     int
+	steps    int
+	pruned   bool
 }
 
 const fnvOff = 14695981039346656037
@@ -94,9 +98,17 @@ func (x *Ctx) choose(n int, label string, free bool) int {
 	if i < len(x.prefix) {
 		c = x.prefix[i]
 		if c >= n {
-			// replay divergence is a hard infrastructure error, never a violation
-			fmt.Fprintf(os.Stderr, "INFRA: replay divergence at point %d (%s): choice %d out of range %d; prefix=%v\n", i, label, c, n, x.prefix)
-			os.Exit(2)
+			if x.Strict {
+				// replaying a recorded execution: divergence is a hard infrastructure error, never a violation
+				fmt.Fprintf(os.Stderr, "INFRA: replay divergence at point %d (%s): choice %d out of range %d; prefix=%v\n", i, label, c, n, x.prefix)
+				os.Exit(2)
+			}
+			// exploring: the prefix was recorded a moment ago in this very process, so the code under
+			// test carries state from one execution to the next (a package-level cache or pool the
+			// harness does not know).  Any in-range choice still gives a legitimate execution: go on
+			// with one, and count the event (the run is then not exhaustive).
+			c %= n
+			x.Diverged = true
 		}
 	}
 	if c != 0 && !free {
@@ -229,6 +241,7 @@ type Result struct {
 	Outcomes     int64      `json:"outcomes"`
 	NonTrivial   int64      `json:"nontrivial"`
 	Pruned       int64      `json:"pruned"`
+	Diverged     int64      `json:"diverged"` // executions whose recorded prefix no longer fitted (state carried across executions)
 	Scenarios    int        `json:"scenarios"`
 	ScenariosCut int        `json:"scenarios_cut"` // scenarios not finished because of the budget
 	MaxDevs      int        `json:"max_devs"`
@@ -284,7 +297,8 @@ var OnExecStart func()
 
 // Exec runs the body once with the given prefix (then defaults) and returns the context.
 func Exec(sc *Scenario, prefix []int, verbose bool, run *scenarioRun) (x *Ctx) {
-	x = &Ctx{prefix: prefix, h: fnvOff, ho: fnvOff, Verbose: verbose, sc: run}
+	x = &Ctx{prefix: prefix, h: fnvOff, ho: fnvOff, Verbose: verbose, sc: run, Strict: strictNext}
+	strictNext = false
 	if OnExecStart != nil {
 		OnExecStart()
 	}
@@ -336,8 +350,12 @@ func panicSite(st string) string {
 // Replay executes one choice sequence verbosely.
 func Replay(sc *Scenario, choices []int) *Ctx {
 	run := newRun(sc)
+	strictNext = true
 	return Exec(sc, choices, true, run)
 }
+
+// strictNext makes the next Exec treat a prefix that does not fit as a hard error (user replays).
+var strictNext bool
 
 func newRun(sc *Scenario) *scenarioRun {
 	return &scenarioRun{bound: sc.Bound, prune: sc.Prune, seen: map[uint64]int{},
@@ -393,6 +411,9 @@ func exploreOne(sc *Scenario, opt Options, res *Result, failKeys map[string]*Fai
 		x := Exec(sc, prefix, false, run)
 		Progress.Add(1)
 		execs++
+		if x.Diverged {
+			res.Diverged++
+		}
 		if x.devs > res.MaxDevs {
 			res.MaxDevs = x.devs
 		}
